@@ -341,7 +341,7 @@ func main() {
 		runner.RunWorker(append(append(scenarios(false), players.ReleaseScenarios(false)...), players.ReleaseScenarios(true)...))
 	}
 	rep := report.New("C03", "exploration")
-	rep.Rule = "(a) every interleaving (deviation-bounded DFS over all sync/atomic/map/cond operations, also with statement-level points in the media files) of each scenario on the real media layer; (b) transport level: a real publisher session and players of every transport (RTSP/TCP, UDP, two multicast members, ws-rtsp, WSP, HTTP-FLV, WebSocket-FLV) attached through their own sessions/handlers; every operation sequence (publish / attach / detach) of the given length followed by every end cause (publisher TEARDOWN, publisher disconnect, replacement by a new publisher, administrative delete, administrative stop of one consumer), with at most E non-default choices: every attached player must be disconnected by the server, counters restored, UDP sockets closed, no goroutine left, and a single stop must release that player only; distinct = distinct (scenario, observation) outcomes"
+	rep.Rule = "(a) every interleaving (deviation-bounded DFS over all sync/atomic/map/cond operations, also with statement-level points in the media files) of each scenario on the real media layer; (b) transport level: a real publisher session and players of every transport (RTSP/TCP, UDP, two multicast members, ws-rtsp, WSP, HTTP-FLV, WebSocket-FLV) attached through their own sessions/handlers; every operation sequence (publish / attach / detach) of the given length followed by every end cause (publisher TEARDOWN, publisher disconnect, replacement by a new publisher followed by the old publisher leaving, administrative delete, server shutdown (UnregistAll), administrative stop of one consumer), with at most E non-default choices: every attached player must be disconnected by the server, counters restored, UDP sockets closed, no goroutine left, and a single stop must release that player only; distinct = distinct (scenario, observation) outcomes"
 	scs := append(scenarios(rep.Thorough()), players.ReleaseScenarios(rep.Thorough())...)
 	runner.FineP = 1 // statement-level points in the files of fine.txt
 	if rep.Thorough() {
